@@ -110,7 +110,7 @@ func goroots() []string {
 
 // CheckKinds is C01 clause 2: import discovery is exhaustive with respect to the type printer.
 func CheckKinds(run *core.Run, prog *load.Program) {
-	f, fn, info := moqFunc(prog, load.PkgRegistry, "MethodScope.populateImports")
+	f, fn, info := walkerByRole(prog)
 	if f == nil {
 		// role: the recursive function over a types.Type switch that reaches AddImport
 		run.Undecided("G-KINDS", "role", "internal/registry/method_scope.go", "the import discovery walker (populateImports) was not found")
@@ -147,226 +147,119 @@ func CheckKinds(run *core.Run, prog *load.Program) {
 	if nroots == 0 {
 		run.Undecided("G-KINDS/writer-table", "goroot", "-", "no GOROOT with go/types sources found")
 	}
-	// reader: the type switch of populateImports
-	var ts *ast.TypeSwitchStmt
-	ast.Inspect(f.Decl.Body, func(n ast.Node) bool {
-		if x, ok := n.(*ast.TypeSwitchStmt); ok && ts == nil {
-			ts = x
+	// which packages the walker registers for each kind is decided by interpreting it (props: kindsTable);
+	// here: the loops of the walker family treat every component alike, so that the short component lists
+	// of that table are representative
+	family := reachableFrom(prog, fn)
+	nloops := 0
+	funcsOf(prog, func(pkgPath string, finfo *types.Info, fd *ast.FuncDecl, ff *types.Func) {
+		if pkgPath != load.PkgRegistry || !family[ff] {
+			return
 		}
-		return true
+		// only functions that can reach the walker again or hand it components matter: every loop in them
+		ast.Inspect(fd.Body, func(n ast.Node) bool {
+			var idx types.Object
+			var body *ast.BlockStmt
+			var header []ast.Node
+			switch lp := n.(type) {
+			case *ast.ForStmt:
+				if as, ok := lp.Init.(*ast.AssignStmt); ok && len(as.Lhs) >= 1 {
+					if id, ok := as.Lhs[0].(*ast.Ident); ok {
+						idx = finfo.ObjectOf(id)
+					}
+				}
+				body = lp.Body
+				header = []ast.Node{lp.Init, lp.Cond, lp.Post}
+			case *ast.RangeStmt:
+				if id, ok := lp.Key.(*ast.Ident); ok && id.Name != "_" {
+					if t := finfo.TypeOf(lp.X); t != nil {
+						if _, isMap := t.Underlying().(*types.Map); !isMap {
+							idx = finfo.ObjectOf(id)
+						}
+					}
+				}
+				body = lp.Body
+			default:
+				return true
+			}
+			if body == nil {
+				return true
+			}
+			// does the body hand something to the walker family?
+			calls := false
+			ast.Inspect(body, func(x ast.Node) bool {
+				if call, ok := x.(*ast.CallExpr); ok {
+					if cf, ok := typeutil.Callee(finfo, call).(*types.Func); ok && prog.IsMoqPkg(cf.Pkg()) && family[cf.Origin()] {
+						// the callee is the walker or leads back to it
+						if cf.Origin() == fn || reachableFrom(prog, cf.Origin())[fn] {
+							calls = true
+						}
+					}
+				}
+				return true
+			})
+			if !calls {
+				return true
+			}
+			nloops++
+			var bad []string
+			// no branch out of the iteration, no condition on the index
+			ast.Inspect(body, func(x ast.Node) bool {
+				switch s := x.(type) {
+				case *ast.FuncLit:
+					return false
+				case *ast.BranchStmt:
+					bad = append(bad, s.Tok.String())
+				case *ast.ReturnStmt:
+					bad = append(bad, "return")
+				case *ast.Ident:
+					if idx != nil && finfo.ObjectOf(s) == idx {
+						// allowed: the sole argument of an accessor call or an index into a slice
+						okUse := false
+						ast.Inspect(body, func(y ast.Node) bool {
+							switch u := y.(type) {
+							case *ast.CallExpr:
+								if len(u.Args) == 1 && ast.Unparen(u.Args[0]) == ast.Expr(s) {
+									okUse = true
+								}
+							case *ast.IndexExpr:
+								if ast.Unparen(u.Index) == ast.Expr(s) {
+									okUse = true
+								}
+							}
+							return true
+						})
+						if !okUse {
+							bad = append(bad, "the index "+s.Name+" is used other than to fetch the component")
+						}
+					}
+				}
+				return true
+			})
+			_ = header
+			run.Check("G-KINDS/uniform-loops", load.FuncName(ff)+":"+types.ExprString(loopSubject(n)), prog.Pos(n.Pos()), len(bad) == 0, fmt.Sprintf("a loop over the components of a type in %s does not treat every component alike (%v): some components' packages may then not be discovered, and a table over short component lists is not representative", load.FuncName(ff), bad))
+			return true
+		})
 	})
-	if ts == nil {
-		run.Undecided("G-KINDS", "switch", pos, "populateImports has no type switch")
-		return
-	}
-	// which clause handles a value of each concrete go/types type: the first clause (in order) that
-	// lists the type itself or an interface type it implements
-	clauses := map[string]*ast.CaseClause{}
-	gt := prog.ByPath["go/types"]
-	for k := range writerTable {
-		if k == "nil" || gt == nil {
-			continue
-		}
-		tn, _ := gt.Types.Scope().Lookup(strings.TrimPrefix(k, "*")).(*types.TypeName)
-		if tn == nil {
-			continue
-		}
-		ptr := types.NewPointer(tn.Type())
-		for _, cc := range ts.Body.List {
-			cl := cc.(*ast.CaseClause)
-			matched := false
-			for _, e := range cl.List {
-				ct := info.TypeOf(e)
-				if ct == nil {
-					continue
-				}
-				if types.Identical(ct, ptr) {
-					matched = true
-				} else if it, ok := ct.Underlying().(*types.Interface); ok && types.Implements(ptr, it) {
-					matched = true
-				}
-			}
-			if matched {
-				clauses[k] = cl
-				break
-			}
+	run.Count("walker_component_loops", nloops)
+	_ = info
+	_ = f
+	_ = pos
+	_ = cfgx.Cuts{}
+	_ = strings.TrimPrefix
+	_ = sort.Strings
+}
+
+func loopSubject(n ast.Node) ast.Expr {
+	switch lp := n.(type) {
+	case *ast.RangeStmt:
+		return lp.X
+	case *ast.ForStmt:
+		if lp.Cond != nil {
+			return lp.Cond
 		}
 	}
-	// an exempt kind that lands in a clause must not register or descend there
-	for k, row := range writerTable {
-		if row.Exempt == "" || clauses[k] == nil {
-			continue
-		}
-		cl := clauses[k]
-		var does []string
-		for _, st := range f.Sites() {
-			if !within(cl, st.Call) || st.Callee == nil {
-				continue
-			}
-			if st.Callee == fn || load.FuncName(st.Callee) == "Registry.AddImport" {
-				does = append(does, load.FuncName(st.Callee))
-			}
-		}
-		shared := false // the clause is shared with a non-exempt kind through an interface case
-		for k2, c2 := range clauses {
-			if c2 == cl && writerTable[k2].Exempt == "" {
-				shared = true
-			}
-		}
-		if shared || len(does) > 0 {
-			run.Check("G-KINDS/only-printed", k+":case", prog.Pos(cl.Pos()), len(does) == 0, fmt.Sprintf("values of kind %s are handled by a case that calls %v, but the type printer prints no package at such a node (%s): a package is imported that the file never refers to", k, does, row.Exempt))
-		}
-	}
-	var kinds []string
-	for k := range writerTable {
-		kinds = append(kinds, k)
-	}
-	sort.Strings(kinds)
-	for _, k := range kinds {
-		row := writerTable[k]
-		if row.Exempt != "" {
-			continue
-		}
-		cl := clauses[k]
-		if !run.Check("G-KINDS/case", k, pos, cl != nil, fmt.Sprintf("populateImports has no case for %s although the type printer can print a package-qualified name inside it: the qualifier finds no registered import and the type text is wrong or the import missing", k)) {
-			continue
-		}
-		cpos := prog.Pos(cl.Pos())
-		// qualifier-calling node registers a package on every path through the case
-		if row.Qualifies != "" {
-			var adds = map[ast.Node]bool{}
-			for _, s := range f.Sites() {
-				if s.Callee != nil && load.FuncName(s.Callee) == "Registry.AddImport" && within(cl, s.Call) {
-					adds[s.Call] = true
-				}
-			}
-			run.Check("G-KINDS/registers", k, cpos, len(adds) > 0, fmt.Sprintf("the %s case never registers a package (%s)", k, row.Qualifies))
-		}
-		for _, comp := range row.Components {
-			// recursive calls in this clause whose argument is derived from the component accessor
-			last := comp
-			if i := strings.LastIndexByte(comp, '.'); i >= 0 {
-				last = comp[i+1:]
-			}
-			first := comp
-			if i := strings.IndexByte(comp, '.'); i >= 0 {
-				first = comp[:i]
-			}
-			cut := map[ast.Node]bool{}
-			n := 0
-			for _, s := range f.Sites() {
-				if s.Callee != fn || !within(cl, s.Call) || len(s.Call.Args) == 0 {
-					continue
-				}
-				arg := types.ExprString(s.Call.Args[0])
-				if !accessorChain(arg, first, last, comp) {
-					continue
-				}
-				n++
-				cut[s.Call] = true
-				// loops and nil guards that enclose the call
-				for _, enc := range enclosing(cl, s.Call) {
-					switch e := enc.(type) {
-					case *ast.ForStmt:
-						if e.Cond != nil {
-							cut[e.Cond] = true
-						}
-					case *ast.RangeStmt:
-						cut[e.X] = true
-					case *ast.IfStmt:
-						if isNilGuard(info, e.Cond) {
-							cut[e.Cond] = true
-						}
-					}
-				}
-			}
-			if !run.Check("G-KINDS/component", k+"."+comp, cpos, n > 0, fmt.Sprintf("the %s case does not descend into %s, which the type printer prints: a type from another package there is printed but its import is not discovered", k, comp)) {
-				continue
-			}
-			if len(cl.Body) == 0 {
-				continue
-			}
-			// every path through the clause passes the descent (or the loop/nil guard that holds it)
-			sb, si := firstNodeWithin(f, cl.Body[0])
-			if sb < 0 {
-				run.Undecided("G-KINDS/component-every-path", k+"."+comp, cpos, "cannot locate the start of the case in the control-flow graph")
-				continue
-			}
-			r := f.Explore(sb, si, cfgx.Cuts{Nodes: cut})
-			run.Check("G-KINDS/component-every-path", k+"."+comp, cpos, len(r.Exits) == 0, fmt.Sprintf("the %s case can be left without descending into %s (an early return or a condition skips it)", k, comp))
-			// inside a loop over the components, every iteration descends: from the start of the loop body
-			// the next iteration (post statement / condition) must not be reachable without the call
-			for _, s := range f.Sites() {
-				if s.Callee != fn || !within(cl, s.Call) || !cut[s.Call] {
-					continue
-				}
-				for _, enc := range enclosing(cl, s.Call) {
-					fs, ok := enc.(*ast.ForStmt)
-					if !ok || len(fs.Body.List) == 0 {
-						continue
-					}
-					bb, bi := firstNodeWithin(f, fs.Body)
-					if bb < 0 {
-						continue
-					}
-					rr := f.Explore(bb, bi, cfgx.Cuts{Nodes: map[ast.Node]bool{s.Call: true}})
-					skipped := len(rr.Exits) > 0
-					if fs.Post != nil && rr.Passed(fs.Post) {
-						skipped = true
-					}
-					if fs.Cond != nil && rr.Passed(fs.Cond) {
-						skipped = true
-					}
-					run.Check("G-KINDS/component-every-iteration", k+"."+comp, cpos, !skipped, fmt.Sprintf("an iteration of the loop over %s in the %s case can skip the descent (a `continue`, `break` or condition inside the loop): some components' imports are then not discovered", comp, k))
-				}
-			}
-		}
-	}
-	// nothing else is descended into: an import discovered for something the printer never prints is an unused import
-	for _, cc := range ts.Body.List {
-		cl := cc.(*ast.CaseClause)
-		var handled []string
-		for k, c2 := range clauses {
-			if c2 == cl && writerTable[k].Exempt == "" {
-				handled = append(handled, k)
-			}
-		}
-		sort.Strings(handled)
-		if len(handled) == 0 {
-			continue
-		}
-		for _, s := range f.Sites() {
-			if s.Callee != fn || !within(cl, s.Call) || len(s.Call.Args) == 0 {
-				continue
-			}
-			arg := types.ExprString(s.Call.Args[0])
-			okArg := !strings.Contains(arg, "Constraint(") && !strings.Contains(arg, "TypeParams(") && !strings.Contains(arg, "Underlying(")
-			for _, kind := range handled {
-				match := false
-				for _, comp := range writerTable[kind].Components {
-					last := comp
-					if i := strings.LastIndexByte(comp, '.'); i >= 0 {
-						last = comp[i+1:]
-					}
-					first := comp
-					if i := strings.IndexByte(comp, '.'); i >= 0 {
-						first = comp[:i]
-					}
-					if accessorChain(arg, first, last, comp) {
-						match = true
-					}
-				}
-				if !match {
-					okArg = false
-				}
-			}
-			run.Check("G-KINDS/only-printed", strings.Join(handled, ",")+":"+arg, prog.Pos(s.Call.Pos()), okArg, fmt.Sprintf("the case for %s descends into %s, which the type printer does not print at such a node: packages found there are imported but never referred to (unused import) and the walk may not terminate (constraints can refer back to their type parameter)", strings.Join(handled, ","), arg))
-		}
-	}
-	run.Floor("G-KINDS/case", 11)
-	run.Floor("G-KINDS/component", 12)
-	// the imports map filled here is keyed like the qualifier looks it up (stripVendorPath)
-	_ = typeutil.Callee
+	return ast.NewIdent("loop")
 }
 
 func within(outer ast.Node, n ast.Node) bool {
@@ -455,4 +348,55 @@ func firstNodeWithin(f *cfgx.Func, stmt ast.Node) (int, int) {
 		}
 	}
 	return bb, bi
+}
+
+// walkerByRole: the registry function that takes a types.Type and a map of imports and is called by AddVar.
+func walkerByRole(prog *load.Program) (*cfgx.Func, *types.Func, *types.Info) {
+	var cands []*types.Func
+	funcsOf(prog, func(pkgPath string, info *types.Info, fd *ast.FuncDecl, fn *types.Func) {
+		if pkgPath != load.PkgRegistry || fn == nil {
+			return
+		}
+		sig, _ := fn.Type().(*types.Signature)
+		if sig == nil {
+			return
+		}
+		hasT, hasM := false, false
+		for i := 0; i < sig.Params().Len(); i++ {
+			pt := sig.Params().At(i).Type()
+			if types.TypeString(pt, nil) == "go/types.Type" {
+				hasT = true
+			}
+			if mt, ok := pt.Underlying().(*types.Map); ok && strings.HasSuffix(types.TypeString(mt.Elem(), nil), "registry.Package") {
+				hasM = true
+			}
+		}
+		if hasT && hasM {
+			cands = append(cands, fn)
+		}
+	})
+	var pick *types.Func
+	if av := prog.LookupFunc(load.PkgRegistry, "MethodScope.AddVar"); av != nil && prog.Decl(av) != nil {
+		info := prog.Info(av.Pkg())
+		ast.Inspect(prog.Decl(av).Body, func(n ast.Node) bool {
+			if call, ok := n.(*ast.CallExpr); ok {
+				if cf, ok := typeutil.Callee(info, call).(*types.Func); ok {
+					for _, c := range cands {
+						if cf.Origin() == c && pick == nil {
+							pick = c
+						}
+					}
+				}
+			}
+			return true
+		})
+	}
+	if pick == nil && len(cands) > 0 {
+		pick = cands[0]
+	}
+	if pick == nil || prog.Decl(pick) == nil {
+		return nil, nil, nil
+	}
+	info := prog.Info(pick.Pkg())
+	return cfgx.New(info, prog.Decl(pick)), pick, info
 }
